@@ -76,6 +76,10 @@ public:
    */
   size_t getSize();
 
+  /** Saves the hash to a file: the table is expanded to the layout it was
+      loaded from */
+  void save(std::ostream &fp);
+
   /** Loads a hash from a file*/
   static HashBBdh *load(std::istream &fp);
 
@@ -83,5 +87,6 @@ public:
 
 protected:
   BitSequence *offsets;
+  uint numbits; // field width of the saved sequence
 };
 #endif
